@@ -170,6 +170,13 @@ func cmdScaleSem(args []string) {
 	cfg := corpusCfg(args[0])
 	cfg.allowSrcAllot, cfg.allowDstAllot, cfg.portionVars, cfg.origins = false, false, false, false
 	cfg.wTx, cfg.wAm = 0, 0
+	cfg.infix = true
+	if cfg.maxStmts < 2 {
+		cfg.maxStmts = 2
+	}
+	if cfg.maxVars < 3 {
+		cfg.maxVars = 3
+	}
 	if cfg.wSend+cfg.wSave == 0 {
 		cfg.wSend = 10
 	}
